@@ -49,6 +49,8 @@ BIP_THOROUGH = [(l, r) for l in range(0, 4) for r in range(0, 4)] + [(2, 4), (4,
 
 def mk_graph(g):
     from cnfgen.graphs import Graph
+    if g.get('nx') == 3:
+        return _nx_with_a_past(g['n'], [tuple(e) for e in g['edges']], pairs(g['n']), 'simple')
     if g.get('nx'):
         # the same graph as a networkx object: nodes inserted in reverse order, edges in reverse order and orientation
         import networkx
@@ -113,6 +115,67 @@ def mk_graph(g):
     return G
 
 
+def _nx_with_a_past(n, E, candidates, kind):
+    """A networkx OBJECT that the caller has used before with other content: first one edge sits elsewhere (same numbers
+    of nodes and edges), the object is converted by every normaliser and given to the families of its kind, then the
+    caller moves the edge and hands the same object over.  A family is a function of the graph it is given NOW."""
+    import networkx
+    if kind == 'bipartite':
+        l, r = n
+        N = networkx.Graph()
+        N.add_nodes_from(range(1, l + 1), bipartite=0)
+        N.add_nodes_from(range(l + 1, l + r + 1), bipartite=1)
+        enc = lambda e: (e[0], l + e[1])
+    else:
+        N = networkx.DiGraph() if kind == 'digraph' else networkx.Graph()
+        N.add_nodes_from(range(1, n + 1))
+        enc = lambda e: e
+    N.name = 'a networkx object with a past'
+    Es = set(E) | (set((v, u) for u, v in E) if kind == 'simple' else set())
+    missing = [e for e in candidates if e not in Es]
+    if not E or not missing:
+        N.add_edges_from(enc(e) for e in E)
+        _observe_nx(N, kind)
+        return N
+    wrong = missing[len(E) % len(missing)]
+    N.add_edges_from(enc(e) for e in E[1:])
+    N.add_edge(*enc(wrong))
+    _observe_nx(N, kind)
+    N.remove_edge(*enc(wrong))
+    N.add_edge(*enc(E[0]))
+    return N
+
+
+def _observe_nx(N, kind):
+    from cnfgen.graphs import Graph, BipartiteGraph, DirectedGraph
+    fs = []
+    if kind == 'simple':
+        from cnfgen.families.coloring import GraphColoringFormula, EvenColoringFormula
+        from cnfgen.families.dominatingset import DominatingSet, Tiling
+        from cnfgen.families.subgraph import CliqueFormula, BinaryCliqueFormula, RamseyWitnessFormula, SubgraphFormula
+        from cnfgen.families.ordering import GraphOrderingPrinciple
+        from cnfgen.families.counting import PerfectMatchingPrinciple
+        from cnfgen.families.tseitin import TseitinFormula
+        from cnfgen.families.graphisomorphism import GraphIsomorphism, GraphAutomorphism
+        fs = [lambda: Graph.normalize(N), lambda: Graph.from_networkx(N), lambda: GraphColoringFormula(N, 2), lambda: EvenColoringFormula(N),
+              lambda: DominatingSet(N, 1), lambda: Tiling(N), lambda: CliqueFormula(N, 2), lambda: BinaryCliqueFormula(N, 2),
+              lambda: RamseyWitnessFormula(N, 2, 2), lambda: SubgraphFormula(N, N), lambda: GraphOrderingPrinciple(N),
+              lambda: PerfectMatchingPrinciple(N), lambda: TseitinFormula(N), lambda: GraphIsomorphism(N, N), lambda: GraphAutomorphism(N)]
+    elif kind == 'bipartite':
+        from cnfgen.families.pigeonhole import GraphPigeonholePrinciple
+        from cnfgen.families.subsetcardinality import SubsetCardinalityFormula
+        fs = [lambda: BipartiteGraph.normalize(N), lambda: BipartiteGraph.from_networkx(N), lambda: GraphPigeonholePrinciple(N),
+              lambda: GraphPigeonholePrinciple(N, functional=True, onto=True), lambda: SubsetCardinalityFormula(N)]
+    else:
+        from cnfgen.families.pebbling import PebblingFormula, StoneFormula
+        fs = [lambda: DirectedGraph.normalize(N), lambda: DirectedGraph.from_networkx(N), lambda: PebblingFormula(N), lambda: StoneFormula(N, 2)]
+    for f in fs:
+        try:
+            f()
+        except Exception:  # noqa: results are discarded; what matters is the call having happened
+            pass
+
+
 def _observe_simple(G):
     """read every view of G and build every family that takes one simple graph (results discarded)"""
     n = G.number_of_vertices()
@@ -136,6 +199,9 @@ def _observe_simple(G):
 
 def mk_bip(g):
     from cnfgen.graphs import BipartiteGraph
+    if g.get('nx') == 3:
+        return _nx_with_a_past((g['l'], g['r']), [tuple(e) for e in g['edges']],
+                               [(u, v) for u in range(1, g['l'] + 1) for v in range(1, g['r'] + 1)], 'bipartite')
     if g.get('nx'):
         # networkx object: the two sides interleaved, 'bipartite' attribute as int (nx=1) or string (nx=2),
         # edges listed from the right side
@@ -166,6 +232,11 @@ def mk_bip(g):
 
 def mk_digraph(g):
     from cnfgen.graphs import DirectedGraph
+    if g.get('nx') == 3:
+        n = g['n']
+        E = [tuple(e) for e in g['edges']]
+        dag = all(u < v for u, v in E)
+        return _nx_with_a_past(n, E, [(u, v) for u in range(1, n + 1) for v in range(1, n + 1) if (u < v if dag else True)], 'digraph')
     if g.get('nx'):
         import networkx
         N = networkx.DiGraph()
@@ -280,7 +351,7 @@ def with_networkx_inputs(name_points, every=5):
     out = []
     for i, (name, p) in enumerate(name_points):
         if 'edges' in p and i % every == 2:
-            q = dict(p, nx=1 + (i // every) % 2)
+            q = dict(p, nx=1 + (i // every) % 3)
             out.append((name, q))
         if 'edges' in p and 'n' in p and 'l' not in p and i % every == 4:
             out.append((name, dict(p, grown=1 + (i // every) % 3)))
@@ -288,3 +359,93 @@ def with_networkx_inputs(name_points, every=5):
             # the graph object has a past: refused insertions, a refused bulk insertion, earlier use with other content
             out.append((name, dict(p, hist=1 + (i // every) % 3)))
     return out
+
+
+def edit_library_graphs(maxn=6):
+    """A caller obtains graphs from every public constructor (class methods, shift/pyramid/tree/path helpers and the graph
+    specifications of the command line) and edits the objects it was given in place - removes an edge, adds one, adds two
+    vertices.  Those objects belong to the caller: nothing the library builds afterwards may depend on the edits."""
+    from cnfgen.graphs import (Graph, DirectedGraph, BipartiteGraph, CompleteBipartiteGraph, bipartite_shift, dag_pyramid,
+                               dag_complete_binary_tree, dag_path)
+    got = []
+
+    def take(f):
+        try:
+            got.append(f())
+        except Exception:  # noqa: a constructor that refuses these arguments hands out nothing to edit
+            pass
+    for n in range(0, maxn + 1):
+        for f in (Graph.complete_graph, Graph.empty_graph, Graph.star_graph, Graph, DirectedGraph, dag_path, dag_pyramid,
+                  dag_complete_binary_tree):
+            take(lambda f=f, n=n: f(n))
+        for m in range(0, 4):
+            take(lambda n=n, m=m: BipartiteGraph(n, m))
+            take(lambda n=n, m=m: CompleteBipartiteGraph(n, m))
+            take(lambda n=n, m=m: bipartite_shift(n, m, [0, 1][:m]))
+    take(Graph.null_graph)
+    for G in got:
+        _edit_in_place(G)
+    return len(got)
+
+
+def edit_cli_graphs():
+    """The same for the graphs named on the command line: grid/torus/complete/empty/path/tree/pyramid/shift specifications
+    are built through the command line's own constructor and the objects handed out are edited in place."""
+    n = 0
+    try:
+        from cnfgen.clitools.graph_args import make_graph_from_spec
+    except Exception:  # noqa
+        return 0
+    Graph, DirectedGraph, BipartiteGraph = 'simple', 'dag', 'bipartite'
+    specs = [(Graph, ['complete', str(k)]) for k in range(1, 7)] + [(Graph, ['empty', str(k)]) for k in range(1, 7)] + \
+            [(Graph, ['grid', a, b]) for a in '123' for b in '123'] + [(Graph, ['torus', a, b]) for a in '34' for b in '34'] + \
+            [(Graph, ['grid', '2', '2', '2'])] + \
+            [(DirectedGraph, [k, str(h)]) for k in ('path', 'tree', 'pyramid') for h in range(0, 4)] + \
+            [(BipartiteGraph, ['complete', a, b]) for a in '123' for b in '123'] + \
+            [(BipartiteGraph, ['empty', a, b]) for a in '123' for b in '123'] + \
+            [(BipartiteGraph, ['shift', a, b, '1']) for a in '23' for b in '23']
+    for cls, spec in specs:
+        try:
+            G = make_graph_from_spec(cls, list(spec))
+        except BaseException:  # noqa: SystemExit / CLIError from a specification this version refuses
+            continue
+        _edit_in_place(G)
+        n += 1
+    return n
+
+
+def _edit_in_place(G):
+    from cnfgen.graphs import Graph, DirectedGraph, BipartiteGraph, CompleteBipartiteGraph
+    try:
+        if isinstance(G, CompleteBipartiteGraph):
+            return
+        if isinstance(G, BipartiteGraph):
+            l, r = G.left_order(), G.right_order()
+            for u in range(1, l + 1):
+                for v in range(1, r + 1):
+                    if not G.has_edge(u, v):
+                        G.add_edge(u, v)
+                        return
+            return
+        n = G.number_of_vertices()
+        E = list(G.edges())
+        if isinstance(G, Graph):
+            if E:
+                G.remove_edge(*E[0])
+                if len(E) > 1:
+                    G.remove_edge(E[-1][1], E[-1][0])
+            else:
+                if n >= 2:
+                    G.add_edge(1, n)
+            G.update_vertex_number(n + 2)
+            G.add_edge(1 if n else 1, n + 2)
+        elif isinstance(G, DirectedGraph):
+            for u in range(1, n + 1):
+                for v in range(u + 1, n + 1):
+                    if not G.has_edge(u, v):
+                        G.add_edge(u, v)
+                        return
+            if n >= 2:
+                G.add_edge(n, 1)
+    except ValueError:
+        pass
